@@ -213,7 +213,20 @@ func (ev *Eval) quant(q *EQuant, m skMode) (string, error) {
 		inner = and(append(rngs, body)...)
 	}
 	if okAll && len(mp) > 0 {
-		inner = "(! " + inner + " :pattern (" + strings.Join(mp, " ") + "))"
+		alts := ""
+		if len(names) == 1 && sortS != "Int" {
+			// ghost-map keys: every map read at the bound key is an alternative trigger, so a
+			// conjunction over several ghost maps instantiates from any of them
+			n := 0
+			for _, p := range pats {
+				if n < 6 && !used[p] && strings.HasSuffix(p, " "+names[0]+")") {
+					used[p] = true
+					alts += " :pattern (" + p + ")"
+					n++
+				}
+			}
+		}
+		inner = "(! " + inner + " :pattern (" + strings.Join(mp, " ") + ")" + alts + ")"
 	}
 	kw := "forall"
 	if !q.All {
